@@ -1,7 +1,7 @@
 CONSTANTS
-  Payers = {"a", "b"} Others = {"r"} MAXH = 6
+  Payers = {"a", "b"} Others = {"r"} MAXH = 5
   FIX = {"ref", "space", "gaugeid", "sizes"}
-  Slots = {"g1", "g2", "g3", "g4"} Quotes = {101, 7} Units = {1000} Days = {30, 400} SzsPos = {} SzsNeg = {} Mps = {} Dts = {0, 240, 10000}
+  Slots = {"g1", "g2", "g3"} Quotes = {101} Units = {1000} Days = {30, 400} SzsPos = {} SzsNeg = {} Mps = {} Dts = {0, 240}
   PREF = 25 PPOL = 40 PCW = 2 PIW = 2 FUND = 250 H0 = 2 Ratios = {} MaxFiles = 0
 INIT Init
 NEXT NextPay
